@@ -29,6 +29,10 @@ def run(ctx):
         if r["error"]:
             if r["error"].startswith("infra"):
                 raise InfraError(r["error"])
+            if r["error"].startswith("front end rejected pool program") and "~" in r["name"]:
+                # a constant-perturbed VARIANT of a pool program (thorough tier) that the front end rightly refuses
+                ctx.count("perturbed-variant-rejected-by-the-front-end")
+                continue
             ctx.violation(f"stream:{r['name'].split('~')[0]}:worker-error", r["error"],
                           {"program": r["name"], "src": r["src"]}, no_input=True)
             continue
